@@ -606,9 +606,18 @@ class OpenDocument:
         assert(isinstance(document, OpenDocument))
         assert(type(objectname)==type(u"") or objectname == None)
 
+        if document in self.childobjects:
+            # attached already: it has its folder
+            return u".%s" % document.folder
+        taken = [ d.folder for d in self.childobjects ]
         self.childobjects.append(document)
         if objectname is None:
-            document.folder = u"%s/Object %d" % (self.folder, len(self.childobjects))
+            # the first free "Object N": a folder may be in use because a
+            # loaded package numbered it so or because a caller named it so
+            n = len(self.childobjects)
+            while u"%s/Object %d" % (self.folder, n) in taken:
+                n += 1
+            document.folder = u"%s/Object %d" % (self.folder, n)
         else:
             if not objectname.startswith(u"/"):
                 objectname = u"/" + objectname
